@@ -233,7 +233,7 @@ func genWorld(r *kit.Rand, mode string) genOut {
 	// replacement types
 	nrep := r.Range(2, 7)
 	if mode == "s2s" {
-		nrep = r.Range(14, 21)
+		nrep = r.Range(15, 23)
 	}
 	fams := []string{"fa", "fb", "fc", "fd"}
 	for i := 0; i < nrep; i++ {
@@ -267,7 +267,7 @@ func genWorld(r *kit.Rand, mode string) genOut {
 	// minValues next to the number of options
 	if mode == "s2s" && r.Chance(1, 3) {
 		spec.Pools[0].MinKey = "it"
-		spec.Pools[0].MinVal = r.Range(13, 19)
+		spec.Pools[0].MinVal = r.Range(14, 19)
 	} else if r.Chance(1, 4) {
 		pool := &spec.Pools[0]
 		if r.Chance(2, 3) {
